@@ -244,3 +244,110 @@ def msg(rng):
     gen = UARTMsgGenerator(hw, 'gen', tx, 2 * n * 9600, 9600, text)
     return dict(hw=hw, tops=[hw, gen] + [c for c in gen.children.values() if len(c.children) or c.isClockable()][:4],
                 inputs={}, desc=dict(msg=text, n=n))
+
+
+# ------------------------------------------------------------------------------------------------
+# same-named behavioural classes: every builder defines its OWN local class called `Stage`
+def _stage_up(py4hw, top, a, r):
+    class Stage(py4hw.Logic):
+        def __init__(self, parent, name, a, r):
+            super().__init__(parent, name)
+            self.a = self.addIn('a', a)
+            self.r = self.addOut('r', r)
+            self.count = 0
+
+        def clock(self):
+            self.count = self.count + 1
+            self.r.prepare(self.count)
+    return Stage(top, 'stage', a, r)
+
+
+def _stage_down(py4hw, top, a, r):
+    class Stage(py4hw.Logic):
+        def __init__(self, parent, name, a, r):
+            super().__init__(parent, name)
+            self.a = self.addIn('a', a)
+            self.r = self.addOut('r', r)
+            self.count = 100
+
+        def clock(self):
+            self.count = self.count - 3
+            self.r.prepare(self.count)
+    return Stage(top, 'stage', a, r)
+
+
+def _stage_up2(py4hw, top, a, r):
+    class Stage(py4hw.Logic):
+        def __init__(self, parent, name, a, r):
+            super().__init__(parent, name)
+            self.a = self.addIn('a', a)
+            self.r = self.addOut('r', r)
+            self.count = 0
+
+        def clock(self):
+            self.count = self.count + 1
+            self.r.prepare(self.count)
+    return Stage(top, 'stage', a, r)
+
+
+def _stage_acc(py4hw, top, a, r):
+    class Stage(py4hw.Logic):
+        def __init__(self, parent, name, a, r):
+            super().__init__(parent, name)
+            self.a = self.addIn('a', a)
+            self.r = self.addOut('r', r)
+            self.count = 0
+
+        def clock(self):
+            self.count = self.count + self.a.get()
+            self.r.prepare(self.count)
+    return Stage(top, 'stage', a, r)
+
+
+def _stage_xor(py4hw, top, a, r):
+    class Stage(py4hw.Logic):
+        def __init__(self, parent, name, a, r):
+            super().__init__(parent, name)
+            self.a = self.addIn('a', a)
+            self.r = self.addOut('r', r)
+
+        def propagate(self):
+            self.r.put(self.a.get() ^ 5)
+    return Stage(top, 'stage', a, r)
+
+
+SAMENAME = {'up': _stage_up, 'down': _stage_down, 'up2': _stage_up2, 'acc': _stage_acc, 'xor': _stage_xor}
+# variants that must give the SAME text (identical source, different class objects): the control
+SAMENAME_EQUAL = [('up', 'up2')]
+
+
+def samename(variant, W=8):
+    import py4hw
+    with contextlib.redirect_stdout(io.StringIO()):
+        hw = py4hw.HWSystem()
+        a, r = hw.wire('a', W), hw.wire('r', W)
+        top = box_class('STop')(hw, 'top')
+        top.addIn('a', a)
+        top.addOut('r', r)
+        st = SAMENAME[variant](py4hw, top, a, r)
+    return dict(hw=hw, top=top, stage=st, inputs={'a': a}, r=r, variant=variant, W=W)
+
+
+def samename_texts(d, gen=None):
+    """(canon text of the hierarchy of top, canon text of the Stage module alone)"""
+    import py4hw
+    import c19_lib as L
+    ids = [hex(id(o))[2:] for o in all_objs(d['hw'])]
+    gen = gen if gen is not None else py4hw.VerilogGenerator(d['hw'])
+    with contextlib.redirect_stdout(io.StringIO()):
+        th = gen.getVerilogForHierarchy(d['top'], noInstanceNumberInTopEntity=True)
+        tm = gen.getVerilog(d['stage'])
+    return dict(hier=L.canon_text(th, ids), mod=L.canon_text(tm, ids), raw_hier=th)
+
+
+if __name__ == '__main__':
+    # reference for ONE variant in a fresh interpreter: nothing else has been generated in this process
+    import sys, json
+    d = samename(sys.argv[1], int(sys.argv[2]))
+    t = samename_texts(d)
+    print(json.dumps(dict(hier=t['hier'], mod=t['mod'])))
